@@ -40,7 +40,7 @@ Section Prims.
     rej (kid_atoms f ((KDel, m) :: st) k) = rej (kid_atoms f st k).
   Proof. intros Hm. assert (E : forall a b, Doc.rej_atom S C (match a with ACh c f _ => ACh c f ((KDel,m)::b) | ASp t f _ => ASp t f ((KDel,m)::b) | ACref i f _ => ACref i f ((KDel,m)::b) | x => x end)
                                      = Doc.rej_atom S C (match a with ACh c f _ => ACh c f b | ASp t f _ => ASp t f b | ACref i f _ => ACref i f b | x => x end)).
-    { intros [c f1 s1|t f1 s1|i|i|i f1 s1] b; simpl; auto; unfold dead, strip; simpl; rewrite Hm; reflexivity. }
+    { intros [c f1 s1|t f1 s1|i s1|i s1|i f1 s1] b; simpl; auto; unfold dead, strip; simpl; rewrite Hm; reflexivity. }
     destruct k as [s|s| | | |i|t]; simpl; unfold Doc.rej; simpl.
     - induction s as [|c s IH]; simpl; auto. rewrite IH. f_equal. apply (E (ACh c f []) st).
     - induction s as [|c s IH]; simpl; auto. rewrite IH. f_equal. apply (E (ACh c f []) st).
